@@ -58,7 +58,9 @@ package schemaorg
 //@ func (*Parser).getArticleItems()
 //@   requires soOK(ps)
 //@   ensures forall(i, 0 <= i && i < len(result), result[i] != nil)
+//@   ensures [C14] #first-article-first (len(result) > 0) == old(soHasArticle(ps)) && implies(len(result) > 0, result[0] == old(soArticle(ps)))
 //@   loop 0 invariant forall(i, 0 <= i && i < len(articles), articles[i] != nil)
+//@   loop 0 invariant implies(len(articles) == 0, old(soFirstArticle(ps.itemScopes, 0)) == old(soFirstArticle(ps.itemScopes, ITER))) && implies(len(articles) > 0, old(soHasArticle(ps)) && articles[0] == old(soArticle(ps)))
 
 //@ func (*Parser).getImageItems()
 //@   requires soOK(ps)
@@ -67,30 +69,38 @@ package schemaorg
 
 //@ func (*Parser).Title()
 //@   requires soOK(ps)
+//@   ensures [C14] #no-article-no-title implies(!old(soHasArticle(ps)), result == "")
 
 //@ func (*Parser).Type()
 //@   requires soOK(ps)
+//@   ensures [C14] #article-type-iff-an-article-item result == ite(old(soHasArticle(ps)), "Article", "")
 
 //@ func (*Parser).URL()
 //@   requires soOK(ps)
+//@   ensures [C14] #url-of-first-article result == ite(old(soHasArticle(ps)), old(soArticle(ps).stringProperties["url"]), "")
 
 //@ func (*Parser).Images()
 //@   requires soOK(ps)
 
 //@ func (*Parser).Description()
 //@   requires soOK(ps)
+//@   ensures [C14] #description-of-first-article result == ite(old(soHasArticle(ps)), old(soArticle(ps).stringProperties["description"]), "")
 
 //@ func (*Parser).Publisher()
 //@   requires soOK(ps)
+//@   ensures [C14] #no-article-no-publisher implies(!old(soHasArticle(ps)), result == "")
 
 //@ func (*Parser).Copyright()
 //@   requires soOK(ps)
+//@   ensures [C14] #no-article-no-copyright implies(!old(soHasArticle(ps)), result == "")
 
 //@ func (*Parser).Author()
 //@   requires soOK(ps)
+//@   ensures [C14] #no-article-author-from-rel implies(!old(soHasArticle(ps)), result == ps.authorFromRel)
 
 //@ func (*Parser).Article()
 //@   requires soOK(ps)
+//@   ensures [C14] #article-record-iff-an-article-item (result == nil) == !old(soHasArticle(ps))
 
 //@ func (*BaseThingItem).addStringPropertyName(name)
 //@   requires tiOK(ti)
@@ -103,3 +113,40 @@ package schemaorg
 //@ func (*ImageItem).getImage()
 //@   requires ii != nil
 //@   ensures result != nil
+
+// C14: what a schema.org item provides: only declared properties are stored, the first non-empty value wins
+//@ func (*BaseThingItem).putStringValue(name, value)
+//@   requires ti != nil
+//@   assigns maps
+//@   ensures [C14] #first-string-value-wins ti.stringProperties[name] == ite(old(inmap(ti.stringProperties, name) && ti.stringProperties[name] == ""), strings.TrimSpace(value), old(ti.stringProperties[name])) &&
+//@              inmap(ti.stringProperties, name) == old(inmap(ti.stringProperties, name))
+//@   ensures [C14] #other-string-properties-kept forall(k[string], implies(k != name, ti.stringProperties[k] == old(ti.stringProperties[k]) && inmap(ti.stringProperties, k) == old(inmap(ti.stringProperties, k))))
+
+//@ func (*BaseThingItem).putItemValue(name, value)
+//@   requires ti != nil
+//@   assigns maps
+//@   ensures [C14] #first-item-value-wins ti.itemProperties[name] == ite(old(inmap(ti.itemProperties, name) && ti.itemProperties[name] == nil), value, old(ti.itemProperties[name])) &&
+//@              inmap(ti.itemProperties, name) == old(inmap(ti.itemProperties, name))
+
+//@ func (*BaseThingItem).getStringProperty(name)
+//@   requires ti != nil
+//@   assigns nothing
+//@   ensures result == ti.stringProperties[name]
+
+//@ func (*BaseThingItem).getItemProperty(name)
+//@   requires ti != nil
+//@   assigns nothing
+//@   ensures result == ti.itemProperties[name]
+
+//@ func (*ArticleItem).getImage()
+//@   requires ai != nil
+//@   ensures [C14] #article-image-from-image-property (result == nil) == (ai.stringProperties["image"] == "") && implies(result != nil, result.URL == ai.stringProperties["image"])
+
+//@ func (*ArticleItem).getCopyright()
+//@   requires ai != nil
+//@   ensures [C14] #copyright-notice-shape result == "" || hasPrefix(result, "Copyright ")
+
+//@ func (*ArticleItem).getArticle()
+//@   requires ai != nil
+//@   ensures [C14] #article-record-from-item-properties result != nil && result.PublishedTime == ai.stringProperties["datePublished"] && result.ModifiedTime == ai.stringProperties["dateModified"] &&
+//@              result.Section == ai.stringProperties["articleSection"] && result.ExpirationTime == ""
